@@ -96,6 +96,9 @@ def install():
             TT.lru_variations = contract(TT.lru_variations, "traph.lru_variations(bound name)")
     else:
         ok = False
+        # the package may call helpers.lru_variations through the module instead of binding the name: the wrapped
+        # helper is then the only contract site, and the counter of the bound name is not a deciding one
+        M.STATUS["optional:contract_evals:traph.lru_variations(bound name)"] = "absent"
     M.STATUS["contract:lru_variations"] = "on" if ok else "absent: traph.traph.lru_variations"
 
 
